@@ -90,6 +90,19 @@ def _unhoisted_test(n, keys):
     return new
 
 
+class _FrozenDict(dict):
+    """A dict value usable in a finite domain (hashable, still a dict for
+    isinstance)."""
+    def __hash__(self):
+        return 7
+
+    def __repr__(self):
+        return '<dict>'
+
+
+FDICT = _FrozenDict()
+
+
 class Frame(object):
     def __init__(self, module, subst=None, parent=None, func=None):
         self.module = module
